@@ -1,6 +1,6 @@
 (** C01 - Message framing conforms to ZMTP 3.0 and round-trips exactly.
     Property theorems only; each is closed by [exact] of a lemma from Proofs/. *)
-From ZV Require Import Base.Bytes Base.Res Spec.Rfc23 Model.Codec Proofs.CodecEnc.
+From ZV Require Import Base.Bytes Base.Res Spec.Rfc23 Model.Codec Proofs.CodecEnc Proofs.CodecRoundtrip.
 From Coq Require Import Permutation.
 
 (** The constants the code uses are the RFC's (Gen.Src is regenerated from /repo on every run). *)
@@ -72,3 +72,11 @@ Theorem C01_ready_wf : forall st idopt props',
   rfc_command (encode_ready props') = Some (ascii_READY, props').
 Proof. exact ready_lib_is_rfc. Qed.
 Print Assumptions C01_ready_wf.
+
+(** C01's last clause: the library decodes what it encoded, under any segmentation *)
+Theorem C01_lib_roundtrip : forall m chunks, wf_msg m ->
+  concat chunks = encode_greeting default_greeting ++ encode_frames m ->
+  lib_items chunks false = [OItem (IGreeting default_greeting); OItem (IMessage m)].
+Proof. exact lib_roundtrip. Qed.
+Print Assumptions C01_lib_roundtrip.
+
